@@ -105,6 +105,29 @@ def _flat(nest, vals):
 
 
 # ----------------------------------------------------------------------------- builder (public API)
+def register_keys(solver, keys, selector):
+    """add_answer_key accepts variables, arrays and any nesting of iterables: register `keys` (a list of variables, in order) in one
+    of the documented argument forms, chosen by `selector` (an int)."""
+    keys = list(keys)
+    form = selector % 7
+    if form == 0:
+        solver.add_answer_key(keys)
+    elif form == 1:
+        solver.add_answer_key(*keys)
+    elif form == 2:
+        solver.add_answer_key(k for k in keys)  # a one-shot iterator
+    elif form == 3:
+        solver.add_answer_key(tuple(keys[:1]), [list(keys[1:2]), (k for k in keys[2:])])
+    elif form == 4:
+        solver.add_answer_key(map(lambda k: k, keys))
+    elif form == 5:
+        for k in keys:
+            solver.add_answer_key(k)
+    else:
+        solver.add_answer_key(iter(keys[: len(keys) // 2]), reversed(keys[len(keys) // 2:]))
+    return form
+
+
 _memo = None
 
 
